@@ -325,7 +325,7 @@ func RaceWork(seed int64, rounds int, refFile string) {
 
 // C14: independent instances are safe concurrently; output deterministic.
 func C14(c *hx.Ctx) {
-	c.Rule = "(a) all interleavings at public-call granularity of pairs (2x4 calls: 70 each) and, thorough, triples (3x3: 1680) of instances drawn from {xz writer HashTable4/BinaryTree, LZMA2 writer with Flush, LZMA writer, xz/LZMA2/LZMA readers}, enumerated by TLC (Conc) and forced with channel gates; every instance's result must equal its sequential result and outputs must be identical across runs; (b) the same workloads free-running under the Go race detector with GOMAXPROCS in {2,4,16}; non-trivial = interleaving in which the instances alternate at least twice"
+	c.Rule = "(a) all interleavings at public-call granularity of pairs (2x4 calls: 70 each) and, thorough, triples (3x3: 1680) of instances drawn from {xz writer HashTable4/BinaryTree, LZMA2 writer with Flush, LZMA writer, xz/LZMA2/LZMA readers}, enumerated by TLC (Conc) and forced with channel gates; every instance's result must equal its sequential result and outputs must be identical across runs; (b) the same workloads free-running under the Go race detector with GOMAXPROCS in {2,4,16}; non-trivial = interleaving in which the instances alternate at least twice; 18 instances incl. raw-chunk continuations, wrapped-ring raw chunks, many-block writers with different checks, shared configuration values, failing readers; stand-alone references from fresh processes; yielding sinks; defaulted vs explicit configuration fields"
 	c.Assumptions = []string{"TLC (Conc) for the interleavings; clause (b) (data races) is decided by the Go race detector, not by TLA+", "gates create happens-before edges, hence the separate free-running race runs"}
 	c.DesignCheck(tlc.Opts{Module: "ConcMC", Cfg: "Conc.cfg", Timeout: 3 * time.Minute, Workers: 1}, []string{"Step"})
 	gen := func(lens string) [][]int {
